@@ -42,7 +42,7 @@ fn main() {
             crash::install(&format!("{}/crash-{}-{}.bin", replay_dir, id, driver::config_name()));
             // plain regression cases first (they bypass proptest and the decoder)
             let mut regress_failure = None;
-            let reg = regress::cases(id);
+            let reg = regress::cases(id, tier);
             let n_regress = reg.len();
             for rc in reg {
                 let ev = (rc.run)(true);
@@ -96,7 +96,7 @@ fn main() {
             let prop = arg(&args, "--prop").or_else(|| get("property")).expect("property");
             if let Some(name) = get("regress") {
                 crash::install("");
-                let Some(rc) = regress::cases(&prop).into_iter().find(|r| r.name == name) else {
+                let Some(rc) = regress::cases(&prop, Tier::Thorough).into_iter().find(|r| r.name == name) else {
                     eprintln!("unknown regression case {}", name);
                     std::process::exit(2);
                 };
